@@ -25,6 +25,16 @@ ASSUMPTIONS = ["finite coordinates; vertices are 2-element lists/tuples of ints 
 BAND = Fraction(1, 10 ** 9)
 
 
+def band_abs(tolerance, points):
+    """Half-width of the 'not decided' band around distance == tolerance: 1e-9 of the tolerance plus
+    the rounding error a float distance computation cannot avoid at this coordinate magnitude
+    (the cross product of two differences of coordinates of size S carries an absolute error of
+    about S^2 * 2^-52; divided by a chord of length L <= 2S*sqrt(2) that is at least ~S * 2^-53 -
+    64 ulp of the largest coordinate is used).  Matters only when chord / tolerance exceeds ~1e9."""
+    scale = max([abs(c) for p in points for c in p] + [0.0])
+    return F(tolerance) * BAND + 64 * F(2.220446049250313e-16) * F(scale)
+
+
 def classify(rec):
     return None
 
@@ -101,7 +111,7 @@ class Monitor:
             if any((v[0], v[1]) != before[k][1] for k in c):
                 ctx.violation("a surviving vertex was modified", witness)
                 return True
-        limit = (F(tolerance) * (1 + BAND)) ** 2
+        limit = (F(tolerance) + band_abs(tolerance, [c for _, c in before])) ** 2
         gap_cache = {}
 
         def gap_bad(a, b):
@@ -194,7 +204,8 @@ class Monitor:
                         for p, v in zip(pts[1:-1], verdicts) if v is None)
             t2 = F(tolerance) ** 2
             witness["exact_max_distance_of_undecided_points"] = math.sqrt(float(d2max))
-            lo, hi = t2 * (1 - BAND) ** 2, t2 * (1 + BAND) ** 2
+            half = band_abs(tolerance, pts)
+            lo, hi = max(F(tolerance) - half, 0) ** 2, (F(tolerance) + half) ** 2
             if lo <= d2max <= hi:
                 ctx.count("borderline (max distance within 1e-9 of the tolerance): not decided")
                 return True
